@@ -1042,12 +1042,12 @@ class C19(Base):
                     ready = False
                     if "skip" not in words:
                         if name == cfg["rm"]:
-                            mm = re.search(r"name='([^']*)'", at)
-                            ready = bool(mm) and mm.group(1) in cfg["targets"]
+                            mm = re.search(r"""name=(['"])(.*?)\1""", at)
+                            ready = bool(mm) and mm.group(2) in cfg["targets"]
                         elif name == cfg["tl"]:
-                            mm = re.search(r"to='([^']*)'", at)
-                            if mm and mm.group(1) in TIMES:
-                                ready = TIME_EPOCHS[TIMES.index(mm.group(1))] <= cfg["now"]
+                            mm = re.search(r"""to=(['"])(.*?)\1""", at)
+                            if mm and mm.group(2) in TIMES:
+                                ready = TIME_EPOCHS[TIMES.index(mm.group(2))] <= cfg["now"]
                     if ready:
                         spans.append((st, m.end()))
                     break
